@@ -180,8 +180,145 @@ def local_names(prog):
     return out
 
 
+# REGION of the known finding reserved-identifiers-not-rejected, by the ROLE of the renamed identifier - measured on the unchanged
+# tree (every name of RESERVED_POOL in every role in programs that use all helper routines; round 6 regression: the region
+# used to be "any reserved-looking name that is not a local", which also covered names that are harmless today - the helper
+# routines keep `_i`, `_l`, `_n`, `_v` local - and so hid a mutation that makes one of them global):
 # a function-local name is prefixed `f<k>_`; it can only meet the compiler's own prefixed names of that function
 LOCAL_COLLIDES = r"_h\d+|_ma\d+"
+# a global keeps its spelling: helper / return / loop-flag / slice / multi-assignment registers, the unprefixed scratch names the
+# helper routines do NOT declare local, mangled names of function locals, and shell variables the script or bash itself uses
+GLOBAL_COLLIDES = r"_h\d+|_rv\d+|_fv\d+|_dv\d+|_ma\d+|_dvc|_ret|_ls|_ll|_c|_|f\d+_.*"
+SHELL_VARS_COLLIDE = {"BASHOPTS", "BASHPID", "BASH_ARGV", "EUID", "FUNCNAME", "GROUPS", "LC_ALL", "LINENO", "PPID", "RANDOM", "SHELLOPTS", "UID", "IFS", "OPTIND",
+                      "PIPESTATUS", "SECONDS", "PATH", "_"}
+# a function keeps its spelling too: the helper routines and the commands the script calls
+FUNC_COLLIDES = r"_sah|_sch|_ssh|echo|eval|local|printf|cat"
+
+
+# one identifier X in each role, in programs that use every helper routine of the bash back-end (slice literal / element store
+# with gap / copy / substring / multi-value call / multi-assignment / nested loops with break and continue / range)
+ROLE_TEMPLATES = {
+ "global-scalar": '''%(X)s := 5
+func f(a int, b string) (int, string) {
+	t := a * 2
+	return t, b + "!"
+}
+xs := []int{1, 2, 3}
+ys := []int{0, 0, 0, 0}
+n := copy(ys, xs)
+xs[4] = 9
+s := "hello"
+u := s[1:3]
+c := s[0]
+p, q := f(3, "k")
+p, %(X)s = %(X)s, p
+for i := 0; i < 3; i++ {
+	if i == 1 {
+		continue
+	}
+	for j := 0; j < 2; j++ {
+		if j == 1 {
+			break
+		}
+		print(i, j, %(X)s)
+	}
+}
+for k, v := range xs {
+	print(k, v)
+}
+print(%(X)s, n, len(xs), u, c, p, q, len(ys), ys[2], xs[3])
+''',
+ "global-slice": '''%(X)s := []string{"a", "b"}
+func f(a int, b string) (int, string) {
+	t := a * 2
+	return t, b + "!"
+}
+ys := []string{"", "", ""}
+n := copy(ys, %(X)s)
+%(X)s[3] = "z"
+s := "hello"
+u := s[1:3]
+p, q := f(3, "k")
+for k, v := range %(X)s {
+	print(k, v)
+}
+print(len(%(X)s), n, u, p, q, ys[1], %(X)s[2] + "|")
+''',
+ "local": '''func g0(a int) (int, int) {
+	return a, a + 1
+}
+func f(a int, b string) (int, string) {
+	%(X)s := a * 2
+	xs := []int{1, 2, 3}
+	ys := []int{0, 0, 0, 0}
+	n := copy(ys, xs)
+	xs[4] = %(X)s
+	s := "hello" + b
+	u := s[1:3]
+	m, k := g(%(X)s)
+	for i := 0; i < 2; i++ {
+		if i == 1 {
+			break
+		}
+		print(i, %(X)s, m, k)
+	}
+	return %(X)s + n + len(xs) + len(u), b + "!"
+}
+p, q := f(3, "k")
+print(p, q)
+''',
+ "param": '''func g(a int) (int, int) {
+	return a, a + 1
+}
+func f(%(X)s int, b string) (int, string) {
+	xs := []int{1, 2, 3}
+	ys := []int{0, 0, 0, 0}
+	n := copy(ys, xs)
+	xs[4] = %(X)s
+	s := "hello" + b
+	u := s[1:3]
+	m, k := g(%(X)s)
+	for i := 0; i < 2; i++ {
+		print(i, %(X)s, m, k)
+	}
+	return %(X)s + n + len(xs) + len(u), b + "!"
+}
+p, q := f(3, "k")
+print(p, q)
+''',
+ "function": '''func %(X)s(a int, b string) (int, string) {
+	xs := []int{1, 2, 3}
+	ys := []int{0, 0, 0, 0}
+	n := copy(ys, xs)
+	xs[4] = a
+	s := "hello" + b
+	u := s[1:3]
+	return a + n + len(xs) + len(u), b + "!"
+}
+p, q := %(X)s(3, "k")
+r, t := %(X)s(p, q)
+print(p, q, r, t)
+''',
+}
+ROLE_EXPECTED = {
+    "global-scalar": ["0 0 6", "2 0 6", "0 1", "1 2", "2 3", "3 0", "4 9", "6 3 5 el h 5 k! 4 3 0"],
+    "global-slice": ["0 a", "1 b", "2 ", "3 z", "4 2 el 6 k! b |"],
+    "local": ["0 6 6 7", "16 k!"],
+    "param": ["0 3 3 4", "1 3 3 4", "13 k!"],
+    "function": ["13 k! 23 k!!"],
+}
+
+
+def func_names(prog):
+    return {s[1] for s in prog if s[0] == "func"}
+
+
+def in_region(new, old, locs, funcs):
+    if old in funcs:
+        return bool(re.fullmatch(FUNC_COLLIDES, new))
+    if old in locs:
+        return bool(re.fullmatch(LOCAL_COLLIDES, new))
+    return bool(re.fullmatch(GLOBAL_COLLIDES, new)) or new in SHELL_VARS_COLLIDE
 
 
 def _sim(script):
@@ -226,6 +363,7 @@ def run(res, b, tier, seed):
         if not ids:
             continue
         locs = local_names(prog)
+        funcs = func_names(prog)
         # the program as generated: reference point of the Batch comparison below
         cases.append(pipeline.Case("p%d_orig" % pi, {"main.tsh": src.encode()},
                                    meta=dict(expected_out=out, expected_status=status, src=src, original=src, renaming="none (the program as generated)", reserved=[],
@@ -276,7 +414,7 @@ def run(res, b, tier, seed):
                                        meta=dict(expected_out=out, expected_status=status, src=rsrc, original=src, renaming=m, **kf,
                                                  group=pi, clash=case_clash(identifiers(rp)),
                                                  reserved=sorted(v for v in m.values() if is_reserved(v)),
-                                                 reserved_known=sorted(v for k_, v in m.items() if is_reserved(v) and (k_ not in locs or re.fullmatch(LOCAL_COLLIDES, v))))))
+                                                 reserved_known=sorted(v for k_, v in m.items() if is_reserved(v) and in_region(v, k_, locs, funcs)))))
     # directed programs (written from the property text): the same identifier spelled in several scopes at once
     import semprop
     for name, j in semprop.load_corpus("C02"):
@@ -318,6 +456,14 @@ def run(res, b, tier, seed):
                                    meta=dict(expected_out=["outer inner!", "inner? global", "param outer inner! global"], expected_status=0, src=ssrc,
                                              original=SCOPES % dict(n="name", p="p"),
                                              renaming="one spelling (%s) for locals of caller and callee, a parameter and a later global" % nm, reserved=[])))
+    for role, t in ROLE_TEMPLATES.items():
+        for i, nm in enumerate(["neutralname"] + [n for n in RESERVED_POOL if n not in KEYWORDS] + [n for n in LOOKALIKE_POOL if not is_reserved(n)]):
+            rsrc = t % dict(X=nm)
+            known = is_reserved(nm) and in_region(nm, "X", {"X"} if role in ("local", "param") else set(), {"X"} if role == "function" else set())
+            cases.append(pipeline.Case("role-%s-%d" % (role, i), {"main.tsh": rsrc.encode()},
+                                       meta=dict(expected_out=ROLE_EXPECTED[role], expected_status=0, src=rsrc, original=t % dict(X="neutralname"),
+                                                 renaming="the identifier X of the role program (%s) spelled %s" % (role, nm),
+                                                 reserved=[nm] if is_reserved(nm) else [], reserved_known=[nm] if known else [])))
     dis, fails = semcheck.check_cases(b, cases, stages="asw")
     # Batch target, metamorphic: the script of a renamed program must behave (under the cmd model) like the script of the program
     # as generated - whatever that behaviour is (64-bit literals etc. are outside the cmd model's reference, equality is not)
